@@ -23,11 +23,16 @@
    finds nothing, invalidations and clear() do nothing - in the model the cache then stays
    empty, so only [c_put] looks at [on].
 
-   [ver] selects the code version: [pinned] is the code before the two "fix:" commits of
+   [ver] selects the code version: [pinned] is the code before the three "fix:" commits of
    this property, [cur] the code after them:
      fix_wa  : write_and_cache drops the node's own entries when the register is WriteAround;
      fix_raw : write_and_cache starts with invalidate_cache_by(nid), so that IRegister::write
-               invalidates the registers that declare the written one as pInvalidator.
+               invalidates the registers that declare the written one as pInvalidator;
+     fix_own : write_and_cache of a WriteThrough register drops the node's own blocks
+               (invalidate_cache_of(nid)) before it stores the written one, so that a block
+               cached under another key of the same node - the same address under another
+               length, a neighbouring selector position closer than the length - is not
+               served after the write.
 
    The device: memory image at [base, base+|mem|); accesses outside fail (reads and writes
    alike, every time).  Scripted transient rejections apply to WRITE accesses only and are
@@ -48,9 +53,9 @@
    that many bytes). *)
 From Cam Require Export Outcome Bytes Mem BitField RegCodec.
 
-Record ver := { fix_wa : bool; fix_raw : bool }.
-Definition pinned : ver := {| fix_wa := false; fix_raw := false |}.
-Definition cur : ver := {| fix_wa := true; fix_raw := true |}.
+Record ver := { fix_wa : bool; fix_raw : bool; fix_own : bool }.
+Definition pinned : ver := {| fix_wa := false; fix_raw := false; fix_own := false |}.
+Definition cur : ver := {| fix_wa := true; fix_raw := true; fix_own := true |}.
 
 (* caching modes *)
 Definition WT : Z := 0.      (* WriteThrough *)
@@ -249,7 +254,9 @@ Definition m_write_and_cache (on : bool) (v : ver) (y : system) (n : Z) (r : cre
   let! a := m_address r in
   let! _ := m_inval_by y (y_port y) in                       (* Port::write *)
   let! _ := m_dev_write a buf in
-  if g_mode r =? WT then m_put on (n, a, l) buf
+  if g_mode r =? WT then
+    let! _ := (if fix_own v then m_inval_of n else mret tt) in
+    m_put on (n, a, l) buf
   else if (g_mode r =? WA) && fix_wa v then m_inval_of n
   else mret tt.
 
